@@ -144,7 +144,10 @@ def generate(rng, tier, index):
         U = [rng.choice(["zero", "below", "above", "adjacent_below", "adjacent_above", "equal", "random", "random", "almost_one"]) for _ in range(n)]
         if rng.random() < 0.15:
             J[rng.randrange(m)][rng.randrange(n)] = -0.0
-        return {"kind": kind, "dtype": dtype, "J": J, "leak": leak, "U": U, "U_random": [rng.random() for _ in range(n)], "f": rng.choice([None, None, "square", "smoothstep"]), "form": rng.choice(["plain", "plain", "noncontig", "requires_grad"])}
+        leak_update = None
+        if leak is not None and rng.random() < 0.3:
+            leak_update = {"how": rng.choice(["inplace", "reassign"]), "leak": [rng.choice([0.0, 1.0, 0.5, rng.random()]) for _ in range(m)]}
+        return {"kind": kind, "dtype": dtype, "J": J, "leak": leak, "leak_update": leak_update, "U": U, "U_random": [rng.random() for _ in range(n)], "f": rng.choice([None, None, "square", "smoothstep"]), "form": rng.choice(["plain", "plain", "noncontig", "requires_grad"])}
     m = rng.choice([1, 2, 3, 4, 6])
     n = rng.choice([m, m + 1, m + 3])
     J = [[rng.gauss(0, 1) for _ in range(n)] for _ in range(m)]
@@ -294,17 +297,41 @@ def execute(scn):
             Pt = 0.5 * (torch.ones_like(Jt[0]) + Jt.sum(dim=0) / Jt.abs().sum(dim=0))
             Pt = GD_F[scn.get("f")](Pt)  # the purity passed through the user's monotone f
         P = [float(x) for x in Pt]
+        leaks_ok = [leak]
+        upd = scn.get("leak_update")
+        if upd and leak is not None and getattr(A, "leak", None) is not None:
+            # a leak schedule: the user changes the leak of an existing instance. Whether an implementation
+            # follows the change or keeps the constructor's values is not stated; mixing both is wrong.
+            newl = torch.tensor(upd["leak"], dtype=dtype)
+            if upd["how"] == "inplace":
+                with torch.no_grad():
+                    A.leak.copy_(newl)
+            else:
+                A.leak = newl
+            leaks_ok = [upd["leak"], leak]
+            stats["reach.graddrop_leak_changed_after_construction"] = 1
         seam = seams.RngSeam(Chooser(scn, P))
         with seam.armed():
             out = A(Jt)
         got = out.detach().to(torch.float64).numpy()
         rec = [r for r in seam.record if r[0] == "rand"]
-        lk = np.zeros(m) if leak is None else np.array(torch.tensor(leak, dtype=dtype).to(torch.float64))
         pos = np.where(J > 0, J, 0.0)
         neg = np.where(J < 0, J, 0.0)
-        keep_pos = pos.sum(axis=0) + (lk[:, None] * neg).sum(axis=0)
-        keep_neg = neg.sum(axis=0) + (lk[:, None] * pos).sum(axis=0)
-        keep_none = (lk[:, None] * J).sum(axis=0)
+
+        def _cands(lv):
+            lkv = np.zeros(m) if lv is None else np.array(torch.tensor(lv, dtype=dtype).to(torch.float64))
+            return (pos.sum(axis=0) + (lkv[:, None] * neg).sum(axis=0), neg.sum(axis=0) + (lkv[:, None] * pos).sum(axis=0), (lkv[:, None] * J).sum(axis=0))
+
+        tol0 = 16 * (m + 2) * eps * np.abs(J).sum(axis=0) + 1e-300
+        chosen = leaks_ok[0]
+        if len(leaks_ok) > 1 and got.shape == (n,):
+            for lv in leaks_ok:
+                kp, kn, k0 = _cands(lv)
+                if all(min(abs(got[c] - kp[c]), abs(got[c] - kn[c]), abs(got[c] - k0[c])) <= tol0[c] for c in range(n)):
+                    chosen = lv
+                    break
+        leak = chosen
+        keep_pos, keep_neg, keep_none = _cands(chosen)
         tolv = 16 * (m + 2) * eps * np.abs(J).sum(axis=0) + 1e-300
         seam_ok = len(rec) == 1 and len(rec[0][2]) == n
         both_signs = any((J[:, c] > 0).any() and (J[:, c] < 0).any() for c in range(n))
